@@ -328,7 +328,10 @@ package ro
 
 //@ operator ToSlice
 //@   props C04 C17
-//@   on next(ctx, value) : emits
+//@   note the accumulated slice is the machine state: empty at subscription, each value appended at the end, nothing else changed
+//@   ghost n int = 0
+//@   inv len(slice) == n && n >= 0
+//@   on next(ctx, value) : emits ; n' = n + 1 ; post len(slice') == len(slice) + 1 && slice'[len(slice)] == value && forall(j, 0, len(slice), slice'[j] == slice[j])
 //@   on complete(ctx) : emits Next(ctx, slice), Complete(ctx)
 
 //@ operator OnErrorReturn
